@@ -175,6 +175,11 @@ def sample_sym(o, v):
 def note_refusals(rep, obs):
     refused = [o for o in obs if 'res' not in o]
     rep.notes['calls_refused_by_implementation'] = len(refused)
+    # running out of memory / recursion depth / time on a small request is not a refusal: no symbol was produced for a valid input
+    for o in refused:
+        if o['outcome'].get('exc') in ('MemoryError', 'RecursionError', 'Timeout'):
+            rep.violation({'call': o['_call'], 'failing_clauses': ['resource_exhaustion'], 'props': o.get('props', []), 'observed': o['outcome']},
+                          f"{engine.brief_call(o['_call'])} ended with {o['outcome'].get('exc')} (no symbol for a valid input)")
     if refused:
         rep.notes['refusal_examples'] = [{'call': engine.brief_call(o['_call']), 'outcome': o['outcome']} for o in refused[:5]]
     return refused
